@@ -57,7 +57,7 @@ def run(chk: Check) -> int:
     col = I.Collector(chk, "C06", ORACLES, nontrivial)
     for name, doc in I.corpus_docs("C06"):
         col.add(I.rerun(doc), name)
-    n = 600 if chk.quick else 8000
+    n = 1500 if chk.quick else 10000
     for k in range(n):
         if col.enough():
             break
